@@ -1052,6 +1052,26 @@ def _collect_transpose_elementwise_forest(
     return transpose_nodes, elementwise_nodes
 
 
+def _fresh_value_name(graph: ir.Graph, base: str) -> str:
+    """``base`` if no value of ``graph`` carries that name yet, else ``base_1``, ``base_2`` ..."""
+    taken: Set[str] = set()
+    for value in list(graph.inputs) + list(graph.outputs):
+        if value is not None and value.name:
+            taken.add(value.name)
+    for name in getattr(graph, "initializers", {}) or {}:
+        taken.add(name)
+    for node in graph:
+        for value in node.outputs:
+            if value is not None and value.name:
+                taken.add(value.name)
+    if base not in taken:
+        return base
+    index = 1
+    while f"{base}_{index}" in taken:
+        index += 1
+    return f"{base}_{index}"
+
+
 def remove_redundant_transpose_reduce_ir(graph: ir.Graph) -> None:
     nodes = list(graph)
     if not nodes:
@@ -1183,7 +1203,11 @@ def remove_redundant_transpose_reduce_ir(graph: ir.Graph) -> None:
                 if axes_input_idx != -1:
                     new_axes_arr = np.array(new_axes, dtype=np.int64)
                     new_axes_val = ir.Value(
-                        name=f"{reducer.name or 'reduce'}_axes_optimized",
+                        # the same reducer can be rewritten twice (user transposes
+                        # inside NCHW boundary transposes): never reuse the name
+                        name=_fresh_value_name(
+                            graph, f"{reducer.name or 'reduce'}_axes_optimized"
+                        ),
                         shape=ir.Shape((len(new_axes),)),
                         type=ir.TensorType(ir.DataType.INT64),
                     )
@@ -1199,7 +1223,7 @@ def remove_redundant_transpose_reduce_ir(graph: ir.Graph) -> None:
                             domain="",
                             inputs=[],
                             outputs=[new_axes_val],
-                            name=f"{reducer.name or 'reduce'}_axes_optimized_const",
+                            name=f"{new_axes_val.name}_const",
                             attributes=[
                                 ir.Attr(
                                     "value",
@@ -2564,9 +2588,9 @@ def _read_scalar_bool_from_value_or_constant(
     return None
 
 
-def _constant_false_value() -> "ir.Value":
+def _constant_false_value(graph: ir.Graph) -> "ir.Value":
     return ir.Value(
-        name="false_const",
+        name=_fresh_value_name(graph, "false_const"),
         type=ir.TensorType(ir.DataType.BOOL),
         shape=ir.Shape(()),
         const_value=ir.tensor(_as_ndarray(False, dtype=np.dtype(np.bool_))),
@@ -2627,7 +2651,7 @@ def inline_dropout_training_mode_constants_ir(graph: ir.Graph) -> None:
                         # placed first so that every re-routed consumer sees it
                         # (a bare Value would dangle; function bodies own no
                         # initializers).
-                        false_value = _constant_false_value()
+                        false_value = _constant_false_value(graph)
                         graph.insert_before(
                             nodes[0],
                             ir.Node(
@@ -2951,7 +2975,7 @@ def _ensure_function_outputs_have_producers(graph: ir.Graph) -> None:
             taken.add(id(out))
             continue
         fresh = ir.Value(
-            name=f"{out.name or 'value'}_out{index}",
+            name=_fresh_value_name(graph, f"{out.name or 'value'}_out{index}"),
             shape=out.shape,
             type=out.type,
         )
